@@ -304,3 +304,12 @@ func Reachable(g *callgraph.Graph, roots ...*ssa.Function) map[*ssa.Function]boo
 	}
 	return seen
 }
+
+// Depth returns the inlining depth to use for a rule whose quick-tier depth is n:
+// the thorough tier inlines two levels deeper (helpers of helpers of helpers).
+func (c *Ctx) Depth(n int) int {
+	if c.Tier == "thorough" {
+		return n + 2
+	}
+	return n
+}
